@@ -3683,6 +3683,32 @@ for _fn, _what in (("finish", "finishes"), ("set_priority", "changes the priorit
       replay=("quinn-test:stale_early_handle_does_not_touch_fresh_stream", lambda m: [dict()]))
 
 
+def q0g_recv_post(c, p):
+    st = p.p.state
+    acted = [x for x in st.calls if re.search(r"quinn_proto::(RecvStream|SendStream)::\w+$", x[0])]
+    if not acted:
+        return "true"
+    fname = "recv_stream.rs" if "recv_stream" in c.fn.name else "send_stream.rs"
+    sname = "RecvStream" if "recv_stream" in c.fn.name else "SendStream"
+    early = c.inp("*_1.%d" % c.field(fname, sname, "is_0rtt", crate="quinn"), BOOL)
+    chk = [x for x in st.calls[:st.calls.index(acted[0])] if re.search(r"State::check_0rtt$", x[0])]
+    if not chk:
+        return not_(early)
+    ok = eq(c.ex.read_key(st, chk[-1][2] + "#discr", I64).t, bv(0))
+    return or_(not_(early), ok)
+
+
+for _nm, _func, _title, _what in (
+        ("recvstream_stop", r"recv_stream\.rs:\d+:1: \d+:16>::stop$", "quinn::RecvStream::stop", "stops it, discarding what the peer sends on it, otherwise"),
+        ("recvstream_drop", r"recv_stream\.rs:\d+:1: \d+:25>::drop$", "<quinn::RecvStream as Drop>::drop", "stops it otherwise"),
+        ("sendstream_drop", r"send_stream\.rs:\d+:1: \d+:25>::drop$", "<quinn::SendStream as Drop>::drop", "finishes or resets it otherwise")):
+    Q(name="e2_quinn_%s_0rtt_guard" % _nm, props=["C17"], crate="quinn", func=_func,
+      allowed_panics=r".", ignore_untranslatable=r".",
+      functions=[_title], pre=lambda c: "true", post=q0g_recv_post,
+      bounds="every state of the handle and of the connection: %s reaches the protocol state machine (quinn_proto::RecvStream / SendStream) only if the handle was not created during 0-RTT, or check_0rtt was asked first and did not report a rejection - after a rejection stream numbering restarts, so the handle's ID may belong to a fresh stream, which a stale handle must not be able to touch (it %s)" % (_title, _what),
+      replay=("quinn-test:stale_early_bi_handles_do_not_touch_fresh_stream", lambda m: [dict()]))
+
+
 # ------------------------------------------------------------------ C11: every stream event wakes the parties that wait for it (one iteration of the event loop)
 def qfe_post(c, p):
     st = p.p.state
